@@ -283,7 +283,7 @@ func runStandin(c *Ctx, sh *shared, dir string) {
 		return
 	}
 	defer func() { a.Stop(); a.KillStrays() }()
-	if !waitPing(a.Sock, si.id, 30*time.Second) {
+	if !waitPing(a.Sock, si.id, 90*time.Second) {
 		fail("node A never reaches the stand-in node", "harness-mesh")
 		return
 	}
@@ -375,7 +375,7 @@ func runStandin(c *Ctx, sh *shared, dir string) {
 			continue
 		}
 		for _, p := range []int{0, 1, 1500, standinSize - 1, standinSize, standinSize + 1} {
-			got, ended, err := WorkResults(a.Sock, r.unitA, int64(p), 6*time.Second)
+			got, ended, err := WorkResults(a.Sock, r.unitA, int64(p), 20*time.Second)
 			var w []byte
 			if p < len(want) {
 				w = want[p:]
